@@ -130,7 +130,7 @@ inline bool apply_fault(U32 &t, const Fault &f) {
 
 // units a flipped / inserted byte is drawn from: biased to structural characters of both grammars
 inline uint32_t fault_unit(qsim::Rng &r, int width) {
-    static const char structural[] = "{}<>[]\"':,/\\= 0159-+.eEtfnu#&;lifvsm";
+    static const char structural[] = "{}<>[]\"':,/\\= 0159-+.eEtfnu#&;lifvsmxXabAF";
     uint64_t          k            = r.below(10);
     uint32_t          mask         = width == 1 ? 0xFFu : width == 2 ? 0xFFFFu : 0xFFFFFFFFu;
     if (k < 7) return (uint32_t)structural[r.below(sizeof(structural) - 1)];
